@@ -230,9 +230,9 @@ func (rd *reader) dequote(t tok, pattern bool) (string, *lexErr) {
 	body := []rune(t.text)
 	stripTo := t.qcol + 1 // number of columns stripped (0-based exclusive end)
 	var out []rune
-	var esc []bool // parallel: produced by escape
+	var esc []bool             // parallel: produced by escape
 	line, col := t.line, t.col // col is 1-based col of quote; first body char is col+1
-	col++                       // now 1-based col of current char
+	col++                      // now 1-based col of current char
 	i := 0
 	for i < len(body) {
 		c := body[i]
